@@ -33,7 +33,7 @@ def configs_for(mode):
     return cfgs
 
 
-def gen_algo_case(rng, ctx, classes="D1 D2 D3 D3 D4 D5 D6 D7 D8 D9 D10 D10 D16 D17 D18", schemes="S1 S1 S2 S3 S3 S6 S9 S11",
+def gen_algo_case(rng, ctx, classes="D1 D2 D3 D3 D4 D5 D6 D7 D8 D9 D10 D10 D16 D17 D18 D20", schemes="S1 S1 S2 S3 S3 S6 S9 S11",
                   nmax=7, nconf=7):
     gen.OUTLIER["n_only_up_to"] = 10       # exact configurations solve an ILP: element outliers stay moderate
     if "D" not in ctx.mode and "C" not in ctx.mode and rng.random() < 0.006:
